@@ -767,6 +767,9 @@ func (s *recordingSpan) AddLink(link trace.Link) {
 		l.DroppedAttributeCount = len(l.Attributes) - limit
 		l.Attributes = l.Attributes[:limit]
 	}
+	// Do not retain the caller's slice: a later write by the caller must not
+	// change the recorded link (nor an already exported snapshot).
+	l.Attributes = slices.Clone(l.Attributes)
 
 	s.links.add(l)
 }
